@@ -13,6 +13,9 @@ type modelFn func(e *Engine, st *State, args []Value, call *ssa.Call, pos token.
 
 var models = map[string]modelFn{}
 
+// modelsUsed records which environment models were actually invoked (reported in the evidence).
+var modelsUsed = map[string]int{}
+
 func strArg(v Value) string {
 	s, ok := v.(StringV)
 	if !ok || s.isObj || s.opaque {
@@ -31,27 +34,62 @@ func opaqueNonEmptyIfFormat(args []Value) Value {
 	return StringV{opaque: true, nonEmpty: ne}
 }
 
+func noop(e *Engine, st *State, args []Value, call *ssa.Call, pos token.Pos) Value {
+	if call != nil {
+		return opaqueZero(call.Type())
+	}
+	return TupleV{}
+}
+
 func init() {
-	// ---- harness intrinsics (matched by suffix in lookupModel) ----
 	models["fmt.Sprintf"] = func(e *Engine, st *State, args []Value, call *ssa.Call, pos token.Pos) Value {
 		return opaqueNonEmptyIfFormat(args)
 	}
 	models["fmt.Sprint"] = func(e *Engine, st *State, args []Value, call *ssa.Call, pos token.Pos) Value {
 		return StringV{opaque: true}
 	}
+	models["fmt.Sprintln"] = func(e *Engine, st *State, args []Value, call *ssa.Call, pos token.Pos) Value {
+		return StringV{opaque: true, nonEmpty: true}
+	}
 	models["fmt.Errorf"] = func(e *Engine, st *State, args []Value, call *ssa.Call, pos token.Pos) Value {
 		return Iface{typ: opaqueErrType, val: Pointer{obj: st.alloc(&Object{typ: opaqueErrType, slots: []Value{}}), off: BV(64, 0)}}
 	}
+	for _, n := range []string{"fmt.Fprintf", "fmt.Fprintln", "fmt.Fprint", "fmt.Printf", "fmt.Println", "fmt.Print"} {
+		models[n] = func(e *Engine, st *State, args []Value, call *ssa.Call, pos token.Pos) Value {
+			return TupleV{BV(64, 0), Iface{}}
+		}
+	}
 	models["strconv.Itoa"] = func(e *Engine, st *State, args []Value, call *ssa.Call, pos token.Pos) Value {
+		if t, ok := args[0].(*Term); ok && t.k {
+			return StringV{conc: fmt.Sprint(signExt(t.w, t.c))}
+		}
 		return StringV{opaque: true, nonEmpty: true}
 	}
-	models["strconv.FormatUint"] = models["strconv.Itoa"]
-	models["strconv.FormatInt"] = models["strconv.Itoa"]
-	for _, n := range []string{"(*sync.Mutex).Lock", "(*sync.Mutex).Unlock", "(*sync.RWMutex).Lock", "(*sync.RWMutex).Unlock", "(*sync.RWMutex).RLock", "(*sync.RWMutex).RUnlock"} {
-		models[n] = func(e *Engine, st *State, args []Value, call *ssa.Call, pos token.Pos) Value { return TupleV{} }
+	models["strconv.FormatUint"] = func(e *Engine, st *State, args []Value, call *ssa.Call, pos token.Pos) Value {
+		return StringV{opaque: true, nonEmpty: true}
 	}
-	// unique.Make: intern by structural equality of (concrete) values; returns Handle{value *T}
-	models["unique.Make"] = nil // generic instances are matched by prefix in lookupModel
+	models["strconv.FormatInt"] = models["strconv.FormatUint"]
+	for _, n := range []string{"(*sync.Mutex).Lock", "(*sync.Mutex).Unlock", "(*sync.RWMutex).Lock", "(*sync.RWMutex).Unlock",
+		"(*sync.RWMutex).RLock", "(*sync.RWMutex).RUnlock", "(*sync.WaitGroup).Add", "(*sync.WaitGroup).Done", "(*sync.WaitGroup).Wait",
+		"runtime.KeepAlive", "runtime.Gosched"} {
+		models[n] = noop
+	}
+	models["(*sync.Mutex).TryLock"] = func(e *Engine, st *State, args []Value, call *ssa.Call, pos token.Pos) Value { return Bool(true) }
+	models["time.Now"] = func(e *Engine, st *State, args []Value, call *ssa.Call, pos token.Pos) Value {
+		// time.Time{wall uint64, ext int64, loc *Location}: wall without the monotonic bit, ext = seconds since year 1.
+		// A fresh, non-decreasing instant (whole seconds, 2001..2100).
+		sec := e.freshVar(st, "time.Now", 64)
+		lo, hi := uint64(63113904000), uint64(66269577600)
+		e.assume(st, And(Cmp("bvuge", sec, BV(64, lo)), Cmp("bvule", sec, BV(64, hi))))
+		if st.clock != nil {
+			e.assume(st, Cmp("bvuge", sec, st.clock))
+		}
+		st.clock = sec
+		return StructV{f: []Value{BV(64, 0), sec, Pointer{}}}
+	}
+	models["os.Hostname"] = func(e *Engine, st *State, args []Value, call *ssa.Call, pos token.Pos) Value {
+		return TupleV{StringV{conc: "verifhost"}, Iface{}}
+	}
 }
 
 var opaqueErrType = types.NewPointer(types.NewNamed(types.NewTypeName(token.NoPos, nil, "opaqueError", nil), types.NewStruct(nil, nil), nil))
@@ -95,17 +133,39 @@ func describe(v Value) string {
 	return fmt.Sprintf("%T", v)
 }
 
+// freshVar creates the next nondet scalar named `name` on this path (vector key name#k).
+func (e *Engine) freshVar(st *State, name string, w int) *Term {
+	key := st.nextKey(name)
+	t := Var(fmt.Sprintf("v_%s_w%d", sanitize(key), w), w)
+	st.inputs = append(st.inputs, t)
+	st.keys[t.id] = key
+	return t
+}
+
+func concInt(v Value, what string) int {
+	t, ok := v.(*Term)
+	if !ok || !t.k {
+		panic(unsupported{what + " must be a constant"})
+	}
+	return int(signExt(t.w, t.c))
+}
+
 // lookupModel finds a model for fn, including harness intrinsics and generic instances.
 func lookupModel(fn *ssa.Function) (modelFn, bool) {
 	name := fn.String()
 	if m, ok := models[name]; ok && m != nil {
-		return m, true
+		return func(e *Engine, st *State, args []Value, call *ssa.Call, pos token.Pos) Value {
+			modelsUsed[name]++
+			return m(e, st, args, call, pos)
+		}, true
 	}
 	if strings.HasPrefix(name, "unique.Make[") {
+		modelsUsed["unique.Make"]++
 		return uniqueMake, true
 	}
 	short := fn.Name()
 	if fn.Pkg != nil && fn.Pkg.Pkg.Path() == "sync/atomic" && len(fn.Blocks) == 0 {
+		modelsUsed["sync/atomic"]++
 		elem := func(call *ssa.Call) types.Type {
 			return call.Call.Args[0].Type().Underlying().(*types.Pointer).Elem()
 		}
@@ -125,6 +185,16 @@ func lookupModel(fn *ssa.Function) (modelFn, bool) {
 				nv := Bin("bvadd", old, term(args[1]))
 				e.store(st, args[0].(Pointer), elem(call), nv, pos)
 				return nv
+			}, true
+		case strings.HasPrefix(short, "And"), strings.HasPrefix(short, "Or"):
+			return func(e *Engine, st *State, args []Value, call *ssa.Call, pos token.Pos) Value {
+				old := term(e.load(st, args[0].(Pointer), elem(call), pos))
+				op := "bvand"
+				if strings.HasPrefix(short, "Or") {
+					op = "bvor"
+				}
+				e.store(st, args[0].(Pointer), elem(call), Bin(op, old, term(args[1])), pos)
+				return old
 			}, true
 		case strings.HasPrefix(short, "Swap"):
 			return func(e *Engine, st *State, args []Value, call *ssa.Call, pos token.Pos) Value {
@@ -146,30 +216,68 @@ func lookupModel(fn *ssa.Function) (modelFn, bool) {
 			}, true
 		}
 	}
+	if fn.Pkg != nil && fn.Pkg.Pkg.Path() == "log/slog" {
+		modelsUsed["log/slog"]++
+		return noop, true
+	}
 	if len(fn.Blocks) == 0 && strings.HasPrefix(short, "v") {
 		switch short {
 		case "vU8", "vU16", "vU32", "vU64", "vBool":
 			w := map[string]int{"vU8": 8, "vU16": 16, "vU32": 32, "vU64": 64, "vBool": 0}[short]
 			return func(e *Engine, st *State, args []Value, call *ssa.Call, pos token.Pos) Value {
-				return e.fresh(strArg(args[0]), w)
+				return e.freshVar(st, strArg(args[0]), w)
 			}, true
-		case "vBytes": // vBytes(name string, max int, slack int) []byte: symbolic length <= max, cap = max+slack with poison tail
+		case "vInt": // vInt(name, lo, hi) int, inclusive bounds
+			return func(e *Engine, st *State, args []Value, call *ssa.Call, pos token.Pos) Value {
+				lo, hi := concInt(args[1], "vInt lo"), concInt(args[2], "vInt hi")
+				v := e.freshVar(st, strArg(args[0]), 64)
+				e.assume(st, And(Cmp("bvsge", v, BV(64, uint64(lo))), Cmp("bvsle", v, BV(64, uint64(hi)))))
+				return v
+			}, true
+		case "vChoice": // vChoice(name, n) int: forked concrete choice 0..n-1
+			return func(e *Engine, st *State, args []Value, call *ssa.Call, pos token.Pos) Value {
+				n := concInt(args[1], "vChoice n")
+				name := strArg(args[0])
+				if pin, ok := e.pins[name]; ok { // pinned by the harness instance (work splitting)
+					key := st.nextKey(name)
+					st.choices[key] = pin
+					return BV(64, uint64(pin))
+				}
+				key := st.nextKey(name)
+				conds := make([]*Term, n)
+				for k := range conds {
+					conds[k] = Bool(true)
+				}
+				e.branch(st, conds, func(s2 *State, k int) {
+					s2.choices[key] = k
+					s2.top().env[call] = BV(64, uint64(k))
+				})
+				panic("unreachable")
+			}, true
+		case "vParam":
+			return func(e *Engine, st *State, args []Value, call *ssa.Call, pos token.Pos) Value {
+				v, ok := e.params[strArg(args[0])]
+				if !ok {
+					panic(unsupported{"vParam " + strArg(args[0]) + " not set in index.json"})
+				}
+				return BV(64, uint64(v))
+			}, true
+		case "vBytes": // vBytes(name string, max int, slack int) []byte: symbolic length <= max, cap = len+slack, tail bytes are poison
 			return func(e *Engine, st *State, args []Value, call *ssa.Call, pos token.Pos) Value {
 				name := strArg(args[0])
-				max := int(term(args[1]).c)
-				slack := int(term(args[2]).c)
-				arr := Var("buf_"+sanitize(name), -1)
-				ln := e.fresh(name+"_len", 64)
+				max := concInt(args[1], "vBytes max")
+				slack := concInt(args[2], "vBytes slack")
+				key := st.nextKey(name)
+				arr := Var("buf_"+sanitize(key), -1)
+				ln := Var("len_"+sanitize(key), 64)
 				e.assume(st, Cmp("bvule", ln, BV(64, uint64(max))))
-				o := &Object{arr: arr, n: max + slack, typ: types.NewArray(types.Typ[types.Uint8], int64(max+slack)), inputName: name}
+				o := &Object{arr: arr, n: max + slack, typ: types.NewArray(types.Typ[types.Uint8], int64(max+slack)), inputName: key}
 				if slack > 0 {
 					o.poisonFrom = ln
 				}
 				id := st.alloc(o)
-				capT := BV(64, uint64(max+slack))
-				if slack == 0 {
-					capT = ln // cap == len: the tightest slice a caller can pass
-				}
+				capT := Bin("bvadd", ln, BV(64, uint64(slack)))
+				st.bufs = append(st.bufs, bufInput{key: key, arr: arr, ln: ln, max: max, slack: slack})
 				return SliceV{obj: id, off: BV(64, 0), ln: ln, cap: capT, es: 1}
 			}, true
 		case "vAssume":
@@ -179,7 +287,7 @@ func lookupModel(fn *ssa.Function) (modelFn, bool) {
 					panic(pathEnd{})
 				}
 				e.assume(st, c)
-				if e.sv.Check() == "unsat" {
+				if !c.k && e.sv.Check() == "unsat" {
 					panic(pathEnd{})
 				}
 				return TupleV{}
@@ -187,12 +295,17 @@ func lookupModel(fn *ssa.Function) (modelFn, bool) {
 		case "vAssert":
 			return func(e *Engine, st *State, args []Value, call *ssa.Call, pos token.Pos) Value {
 				c := term(args[0])
-				e.oblige(st, Not(c), "ASSERT "+strArg(args[1]), pos)
+				e.obligeKind(st, Not(c), strArg(args[1]), pos, "assert")
 				return TupleV{}
 			}, true
 		case "vReach":
 			return func(e *Engine, st *State, args []Value, call *ssa.Call, pos token.Pos) Value {
-				e.Reached[strArg(args[0])] = true
+				e.reach(st, strArg(args[0]))
+				return TupleV{}
+			}, true
+		case "vObserve":
+			return func(e *Engine, st *State, args []Value, call *ssa.Call, pos token.Pos) Value {
+				st.obs = append(st.obs, obsEntry{strArg(args[0]), term(args[1])})
 				return TupleV{}
 			}, true
 		}
